@@ -15,6 +15,7 @@ import Ldap3V.Lemmas.ConnCompleteRun
 import Ldap3V.Lemmas.ConnCompleteCaller
 import Ldap3V.Lemmas.ConnUniq
 import Ldap3V.Lemmas.ConnInert
+import Ldap3V.Gen.DrvClass
 namespace Ldap3V.Conn
 
 /-- Whatever the history: a response sitting in an operation's mailbox (what `op_call` will return)
@@ -103,6 +104,59 @@ theorem C01_classification (s : St) (c : Nat) (ch : Chan) (f : Frame) (hc : s.ch
     have h4 : ¬ (f.op = 4 ∨ f.op = 25 ∨ f.op = 19) := by omega
     simp only [routeSearch, if_neg h4, if_pos h5, hg, hc, halive, modifyChan]
     simp
+
+/-- the classification `routeSearch` applies to the protocolOp number of a frame for a running search -/
+def itemClassOf (op : Nat) : Rust.ItemClass :=
+  if op = 4 ∨ op = 25 ∨ op = 19 then .item else if op = 5 then .done else .bad
+
+/-- **tie by regeneration** (translate/drv_class.py): the `match protoop.id { … }` of the driver's response arm as
+written in src/conn.rs today — its patterns and what each arm does — classifies EVERY protocolOp number the way
+the model's `routeSearch` does (`itemClassOf`; the next theorem says that this is what `routeSearch` acts on). -/
+theorem C01_classification_source (op : Nat) : Gen.driver_item_class op = itemClassOf op := by
+  unfold Gen.driver_item_class itemClassOf
+  by_cases h4 : op = 4
+  · subst h4; rfl
+  · by_cases h25 : op = 25
+    · subst h25; rfl
+    · by_cases h19 : op = 19
+      · subst h19; rfl
+      · by_cases h5 : op = 5
+        · subst h5; rfl
+        · simp [h4, h25, h19, h5]
+
+/-- … and `routeSearch` acts on that class and on nothing else of the frame's kind: `bad`, or a final result that
+does not decode, ends the connection with an error; an item or a well-formed final result leaves the driver running. -/
+theorem C01_route_by_class (s : St) (c : Nat) (f : Frame) :
+    ((itemClassOf f.op = .bad ∨ (itemClassOf f.op = .done ∧ f.good = false)) →
+      routeSearch s c f = endDriver s .endedErr) ∧
+    ((itemClassOf f.op = .item ∨ (itemClassOf f.op = .done ∧ f.good = true)) →
+      (routeSearch s c f).drv = s.drv ∧ (routeSearch s c f).resultmap = s.resultmap) := by
+  unfold itemClassOf
+  by_cases h1 : f.op = 4 ∨ f.op = 25 ∨ f.op = 19
+  · simp only [h1, if_true]
+    refine ⟨fun h => ?_, fun _ => ?_⟩
+    · rcases h with h | ⟨h, _⟩ <;> cases h
+    · simp only [routeSearch, if_pos h1]
+      repeat' split
+      all_goals (first | exact ⟨rfl, rfl⟩ | (constructor <;> rfl))
+  · simp only [h1, if_false]
+    by_cases h5 : f.op = 5
+    · simp only [h5, if_true]
+      refine ⟨fun h => ?_, fun h => ?_⟩
+      · rcases h with h | ⟨_, hg⟩
+        · cases h
+        · simp [routeSearch, h5, hg]
+      · rcases h with h | ⟨_, hg⟩
+        · cases h
+        · simp only [routeSearch, if_neg h1, if_pos h5, hg, if_true]
+          repeat' split
+          all_goals (first | exact ⟨rfl, rfl⟩ | (constructor <;> rfl))
+    · simp only [h5, if_false]
+      refine ⟨fun _ => by simp [routeSearch, h1, h5], fun h => ?_⟩
+      rcases h with h | ⟨h, _⟩ <;> cases h
+
+example : Gen.driver_item_class 4 = .item ∧ Gen.driver_item_class 19 = .item ∧ Gen.driver_item_class 5 = .done ∧
+    Gen.driver_item_class 11 = .bad ∧ Gen.driver_item_class 0 = .bad := by decide
 
 /-! ### an unmatched response disturbs nobody — now or later
 
